@@ -405,6 +405,18 @@ func init() {
 		}
 		enum.DeepShapes(enum.Sizes(deepTo, deepFar), sweep)
 		enum.WideShapes(enum.Sizes(upTo, far), sweep)
+		// wide AND wide (W children with W children each): every W up to 20, then next to the powers of two up to 130;
+		// simple and with the massive option (work that is handed out per child must come back)
+		enum.SquareShapes(enum.Sizes(20, 130), func(s enum.SizeShape) {
+			if !c.Take() || c.Expired() {
+				return
+			}
+			c.StateN(1)
+			c.Nontrivial()
+			c.Inc("square_cases")
+			c06Case(c, c06Replay{Kind: "c06", Depth: s.D, Names: s.Names, Exts: nil, Route: "md", Target: "empty", Extra: "massive"})
+			c06Case(c, c06Replay{Kind: "c06", Depth: s.D, Names: s.Names, Exts: []string{"g0001"}, Route: []string{"root", "md"}[s.Size%2], Target: "missing", Extra: []string{"", "massive-nil"}[s.Size%2]})
+		})
 		enum.TwinShapes(func(s enum.SizeShape) {
 			for _, nm := range s.Names {
 				if strings.ContainsAny(nm, "/") {
@@ -521,6 +533,66 @@ func init() {
 					c.Violation("C06|existing-root-not-reported|with-an-over-long-name-elsewhere", fmt.Sprintf("route=%s existing root as %c: err=%v panic=%q changes=%s", route, kind, err, pan, fsx.Diff(before, fsx.Snapshot(j.Root))), 1, nil)
 				}
 				j.Remove()
+			}
+		}
+		// paths next to the longest path the OS takes (4095 bytes): a chain of 250-byte names under a RELATIVE target, the
+		// deepest path one byte longer from case to case. What counts is the path as the caller spelled it (relative to
+		// the working directory): Mkdir succeeds up to 4095 bytes and fails beyond, with and without the massive option,
+		// from Markdown and from a root
+		for total := 4060; total <= 4100 && !c.Expired(); total++ {
+			if !c.Take() {
+				continue
+			}
+			prefix := len("target/")
+			var names []string
+			used := prefix
+			for used+251 < total-1 {
+				names = append(names, strings.Repeat("n", 250))
+				used += 251
+			}
+			last := total - used
+			if last < 1 || last > 255 {
+				continue
+			}
+			names = append(names, strings.Repeat("z", last))
+			var doc strings.Builder
+			mroot := &model.Node{Name: names[0]}
+			cur := mroot
+			for l, nm := range names {
+				fmt.Fprintf(&doc, "%s- %s\n", strings.Repeat("  ", l), nm)
+				if l > 0 {
+					k := &model.Node{Name: nm}
+					cur.Kids = append(cur.Kids, k)
+					cur = k
+				}
+			}
+			c.StateN(1)
+			c.Nontrivial()
+			c.Inc("path_length_cases")
+			var verdicts []string
+			for _, v := range []string{"md", "md+massive", "root", "root+massive"} {
+				base, extra, _ := strings.Cut(v, "+")
+				j := fsx.NewJail("c06p")
+				wd, _ := os.Getwd()
+				os.Chdir(filepath.Dir(j.Target))
+				opts := append([]gtree.Option{gtree.WithTargetDir("target")}, extraOpts(extra, "")...)
+				var err error
+				pan := guardMaybeMassive(extra != "", func() {
+					if base == "root" {
+						err = gtree.MkdirFromRoot(sut.BuildRoot(mroot), opts...)
+					} else {
+						err = gtree.MkdirFromMarkdown(strings.NewReader(doc.String()), opts...)
+					}
+				})
+				os.Chdir(wd)
+				made := len(fsx.Snapshot(j.Target))
+				j.Remove()
+				c.Eval()
+				verdicts = append(verdicts, fmt.Sprintf("%s: ok=%v made=%d panic=%v", v, err == nil, made, pan != ""))
+				wantOK := total <= 4095
+				if pan != "" || (err == nil) != wantOK || (wantOK && made != len(names)) {
+					c.Violation("C06|path-length-limit|"+v, fmt.Sprintf("deepest path of %d bytes (relative target, %d levels): %s err=%v; wanted success=%v with %d directories", total, len(names), verdicts[len(verdicts)-1], err, wantOK, len(names)), total, nil)
+				}
 			}
 		}
 		// OS refusals on the real file system: over-long name, target below a regular file
